@@ -37,9 +37,25 @@ json.dump(man, open(os.path.join(V, "MANIFEST.json"), "w"), indent=1, ensure_asc
 import glob
 kf = {"_comment": "Committed list of genuine defects of the pinned safing/portbase tree (generated from props/*.findings.json by tools/mkmanifest.py at development time; never written at run time). 'findings' are recorded and not repaired: a check prints KNOWN-FINDING for a monitor violation whose signature is listed here and still reports every other violation. 'fixed' entries document repairs (fix: commits in /repo); they suppress nothing.",
       "findings": [], "fixed": []}
+# builders committed their fixes on their own branches; on /repo main they are cherry-picks (git cherry-pick -x)
+# with new hashes: rewrite the hashes in the `fixed:` lines to the commits that are actually on /repo main
+import re, subprocess
+remap = {}
+try:
+    log = subprocess.run(["git", "-C", "/repo", "log", "--format=%h%x00%B%x01"], capture_output=True, text=True).stdout
+    for ent in log.split("\x01"):
+        if "\x00" not in ent:
+            continue
+        h, body = ent.strip().split("\x00", 1)
+        for m in re.findall(r"cherry picked from commit ([0-9a-f]{40})", body):
+            remap[m[:7]] = h
+except Exception:
+    pass
+def fix_hash(line):
+    return re.sub(r"\b([0-9a-f]{7})\b", lambda m: remap.get(m.group(1), m.group(1)), line)
 for p in sorted(glob.glob(os.path.join(V, "props", "C*.findings.json"))):
     d = json.load(open(p))
     kf["findings"] += d.get("findings", [])
-    kf["fixed"] += d.get("fixed", [])
+    kf["fixed"] += [fix_hash(l) for l in d.get("fixed", [])]
 json.dump(kf, open(os.path.join(V, "known_findings.json"), "w"), indent=1, ensure_ascii=False)
 print("MANIFEST.json: %d checks, %d not_applicable" % (len(checks), len(man["not_applicable"])))
